@@ -208,4 +208,102 @@ theorem ttCheck_sound (a b : E) (h : ttCheck a b = true) (env : Env) :
     intro y hy; simp [τ, hmem y (List.mem_append_right _ hy)])
   rw [← absE_envAssign, ← absE_envAssign, ← ha, ← hb, h1]
 
+
+/-! ### the CASE loop of simplify_conditionals -/
+
+theorem appRev_cons (x : E) (kept : List E) (rest : E) : appRev (x :: kept) rest = appRev kept (.cons x rest) := rfl
+
+theorem evalCase_cons_congr (env : Env) (x r1 r2 : E) (h : evalCase env r1 = evalCase env r2) :
+    evalCase env (.cons x r1) = evalCase env (.cons x r2) := by
+  cases x <;> simp [evalCase, h]
+
+theorem evalCase_appRev_congr (env : Env) (kept : List E) : ∀ r1 r2, evalCase env r1 = evalCase env r2 →
+    evalCase env (appRev kept r1) = evalCase env (appRev kept r2) := by
+  induction kept with
+  | nil => intro r1 r2 h; simpa [appRev] using h
+  | cons x kept ih =>
+    intro r1 r2 h
+    rw [appRev_cons, appRev_cons]
+    exact ih _ _ (evalCase_cons_congr env x r1 r2 h)
+
+theorem evalCase_drop (env : Env) (c t f tl : E) (h : truth (eval env c) ≠ some true) :
+    evalCase env (.cons (.iff c t f) tl) = evalCase env tl := by
+  simp [evalCase, h]
+
+theorem eval_case_congr (env : Env) (a b d : E) (h : evalCase env a = evalCase env b) :
+    eval env (.case a d) = eval env (.case b d) := by
+  simp [eval, h]
+
+/-- the repaired loop: whatever it returns evaluates like the CASE over `reverse kept ++ rest` -/
+theorem caseLoop_sound (env : Env) (dflt : E) : ∀ (fuel : Nat) (kept : List E) (rest : E),
+    eval env (caseLoop true dflt fuel kept rest) = eval env (.case (appRev kept rest) dflt) := by
+  intro fuel
+  induction fuel with
+  | zero => intro kept rest; rfl
+  | succ fuel ih =>
+    intro kept rest
+    cases rest with
+    | cons h tl =>
+      cases h with
+      | iff c t f =>
+        simp only [caseLoop]
+        split
+        · rename_i hc
+          have htrue := alwaysTrue_truth env c hc
+          cases kept with
+          | nil => simp [appRev, eval, evalCase, htrue]
+          | cons k ks => simp
+        · split
+          · rename_i _ hf
+            have hne := alwaysFalse_truth env c hf
+            have hdrop := evalCase_appRev_congr env kept _ _ (evalCase_drop env c t f tl hne)
+            split
+            · -- kept = [], tl = nil
+              simp only [appRev, List.foldl] at hdrop ⊢
+              simp only [eval, evalCase, hne, if_false]
+              split
+              · rename_i hd; subst hd; rfl
+              · rfl
+            · rename_i nxt tl'
+              rw [ih, appRev_cons]
+              exact (eval_case_congr env _ _ dflt hdrop).symm
+            · exact (eval_case_congr env _ _ dflt hdrop).symm
+          · rw [ih, appRev_cons]
+      | _ => simp only [caseLoop]; rw [ih, appRev_cons]
+    | _ => rfl
+
+/-! ### simplify_coalesce: the comparison branch -/
+
+theorem ofB3_truth_cmpVal (op : Cmp) (x y : Val) : ofB3 (truth (cmpVal op x y)) = cmpVal op x y := by
+  unfold cmpVal; split <;> rfl
+
+/-- splitting the COALESCE tail at its first constant argument, when that constant is not NULL -/
+theorem evalCoalesce_split (env : Env) : ∀ (rest pre c : E), splitAtConst rest = some (pre, c) → eval env c ≠ .null →
+    ∀ first, evalCoalesce env (.cons first rest) =
+      (match evalCoalesce env (.cons first pre) with
+       | .null => eval env c
+       | v => v) := by
+  intro rest
+  induction rest with
+  | cons h t _ iht =>
+    intro pre c hs hc first
+    simp only [splitAtConst] at hs
+    split at hs
+    · cases hs
+      simp only [evalCoalesce]
+      cases hf : eval env first <;> simp
+      all_goals (cases hc' : eval env c <;> simp_all)
+    · cases hsp : splitAtConst t with
+      | none => simp [hsp] at hs
+      | some pc =>
+        obtain ⟨pre', c'⟩ := pc
+        simp [hsp] at hs
+        obtain ⟨h1, h2⟩ := hs
+        subst h1; subst h2
+        have := iht pre' c' hsp hc h
+        simp only [evalCoalesce] at this ⊢
+        cases hf : eval env first <;> simp
+        exact this
+  | _ => intro pre c hs; simp [splitAtConst] at hs
+
 end SqlglotModel.Simplify
